@@ -105,6 +105,20 @@ def finding_ik(case, ctx, i, sid, pid, pc, t, rci):
     return td is not None and td >= t - rci and (tv is None or tv < t - rci)
 
 
+def finding_dup(ob, pid):
+    """Signature of known finding DUP: within THIS operation the insert of a new intermediate key for `pid` was not accepted
+    (a row with the same creation stamp exists) and the SDK then adopted the latest stored row for that id, without
+    validating that row's parent system key."""
+    refused = False
+    for e in ev_list(ob):
+        a = e.get("a") or []
+        if e["k"] == "MStore" and a[0] == pid and a[4] is not True:
+            refused = True
+        if refused and e["k"] == "MLoadLatest" and a[0] == pid:
+            return True
+    return False
+
+
 def mon_c01(cases):
     for ci, c in enumerate(cases):
         ctx = Ctx(c)
@@ -191,7 +205,7 @@ def mon_c04(cases):
                 yield dict(what="record names an intermediate key older than the key lifetime", case=ci, op=i, finding=None)
             ikp = ob.get("ikparent")
             if ikp and ikp[1] * SEC + p["Expire"] + p["RCI"] < t:
-                f = "C04-IK" if finding_ik(c, ctx, i, sid, ob["pid"], ob["pc"], t, p["RCI"]) else None
+                f = "C04-IK" if finding_ik(c, ctx, i, sid, ob["pid"], ob["pc"], t, p["RCI"]) else ("C04-DUP" if finding_dup(ob, ob["pid"]) else None)
                 yield dict(what="intermediate key still used more than one revoke-check interval after its system key expired", case=ci, op=i, finding=f)
 
 
@@ -227,7 +241,7 @@ def mon_c05(cases):
                     yield dict(what="record written under an intermediate key revoked more than one interval ago", case=ci, op=i, finding=f)
                 ikp = ob.get("ikparent")
                 if ikp and rv["id"] == ikp[0] and rv["created"] == ikp[1] and t > rv["at"] + 2 * p["RCI"] and stamp > ikp[1] and stamp > ob["pc"]:
-                    f = "C05-IK" if finding_ik(c, ctx, i, sid, ob["pid"], ob["pc"], t, p["RCI"]) else None
+                    f = "C05-IK" if finding_ik(c, ctx, i, sid, ob["pid"], ob["pc"], t, p["RCI"]) else ("C05-DUP" if finding_dup(ob, ob["pid"]) else None)
                     yield dict(what="record written under an intermediate key whose system key was revoked more than two intervals ago", case=ci, op=i, finding=f)
 
 
